@@ -212,6 +212,7 @@ func engBackup(e *Env) {
 		}
 		// one-to-many self relation: trees of Staff; a root may be its own boss, be updated, and get further minions
 		var staff []*bdoc
+		allowStaffSelf := r.Chance(40)
 		for n := 2 + r.Intn(5); n > 0; n-- {
 			var boss *bdoc
 			if len(staff) > 0 && r.Chance(70) {
@@ -220,7 +221,7 @@ func engBackup(e *Env) {
 			if st := create("Staff", map[string]string{"name": fmt.Sprintf(`"s%d"`, r.Intn(1000))}, "boss", boss); st != nil {
 				staff = append(staff, st)
 			}
-			if r.Chance(25) {
+			if allowStaffSelf && r.Chance(30) {
 				for _, st := range staff {
 					if st.fk == nil {
 						q := fmt.Sprintf(`mutation { update_Staff(docID: "%s", input: {boss: "%s", name: "own-boss-%d"}) { _docID } }`, st.id, st.id, kc)
